@@ -50,6 +50,9 @@ type VM struct {
 	CancelFunc    *context.CancelFunc
 	Interrupts    map[uint]value.VmInterrupt
 	LimitsPerCore CoreLimits
+	// Set if the initialization code (global variables, imports) ended with an interrupt.
+	// Every later invocation reports this interrupt instead of running on uninitialized globals.
+	initFailure *value.VmInterrupt
 }
 
 func MainFn() FunctionInvocation {
@@ -102,10 +105,9 @@ func NewVM(
 	)
 
 	if res.Exception != nil {
-		panic(fmt.Sprintf(
-			"Fatal: VM encountered exception during initialization code: %s",
-			res.Exception.Interrupt.Message()),
-		)
+		// `NewVM` cannot return the interrupt (an error in a global initializer, a cancelled context):
+		// it is handed to the host by every invocation on this VM instead of panicking on the host's goroutine.
+		vm.initFailure = &res.Exception.Interrupt
 	}
 
 	return vm
@@ -417,6 +419,21 @@ func (self *VM) spawnCoreInternal(
 	}
 
 	core := self.spawnCore()
+
+	if self.initFailure != nil {
+		// Nothing may run on globals which were never initialized: the core only reports the failure.
+		failure := *self.initFailure
+		go func() {
+			core.SignalHandle <- &failure
+
+			if onFinish != nil {
+				onFinish <- struct{}{}
+			}
+		}()
+
+		return core
+	}
+
 	for _, elem := range addToStack {
 		// TODO: However, the VM should not do this implicitly,
 		// Smarter would be to insert clones manually?
